@@ -174,6 +174,13 @@ Definition moasha_on_trial_result (prio : list vec -> list Q) (rf max_t : Q)
            (b : bracket) (t : Z) (cur_iter : Q) (m : vec) : bracket * decision :=
   if Qleb max_t cur_iter then (b, STOP) else bracket_on_result prio rf b t cur_iter m.
 
+(* MOASHA.on_trial_complete: the final result is handed to the trial's bracket exactly like a report
+   (NO max_t test, the decision is dropped); afterwards the scheduler forgets the trial -> bracket link,
+   the rung entries stay. *)
+Definition moasha_on_trial_complete (prio : list vec -> list Q) (rf : Q)
+           (b : bracket) (t : Z) (cur_iter : Q) (m : vec) : bracket :=
+  fst (bracket_on_result prio rf b t cur_iter m).
+
 (* ---- NonDominatedPriority.priority_unsafe (multiobjective_priority.py, after fix bd08f9a) ----
      sorted_indices = nondominated_sort(X, dim, max_items)
      priorities = np.full(n, len(sorted_indices)); priorities[sorted_indices] = arange(len(sorted_indices)) *)
